@@ -12,8 +12,8 @@ parse fsic's input language."""
 import itertools
 
 REPLACED = {'exp': 'np.exp', 'log': 'np.log', 'max': 'max', 'min': 'min'}
-FUNCS1 = ['exp', 'log', 'abs', 'np.sqrt', 'np.abs', 'float']
-FUNCS2 = ['max', 'min', 'np.maximum', 'np.minimum']
+FUNCS1 = ['exp', 'log', 'abs', 'np.sqrt', 'np.abs', 'float', 'np.linalg.norm', 'np.emath.log']   # incl. nested namespaces
+FUNCS2 = ['max', 'min', 'np.maximum', 'np.minimum', 'np.ma.core.maximum']
 BINOPS = ['+', '-', '*', '/', '**']
 CMPOPS = ['>', '>=', '<', '<=', '==', '!=']
 
